@@ -6,6 +6,7 @@ import (
 	"encoding/json"
 	"errors"
 	"flag"
+	"fmt"
 	"math/rand"
 	"os"
 	"runtime"
@@ -67,8 +68,13 @@ func (r *lifeRun) emit(e Ev) {
 }
 
 func countReaders() int {
+	// the dump of all goroutines must fit: a truncated dump would make the counts before and after equal
 	buf := make([]byte, 1<<20)
 	n := runtime.Stack(buf, true)
+	for n == len(buf) && len(buf) < 1<<28 {
+		buf = make([]byte, 4*len(buf))
+		n = runtime.Stack(buf, true)
+	}
 	return strings.Count(string(buf[:n]), "tds.(*Conn).ReadFrom(")
 }
 
@@ -131,7 +137,17 @@ func runLife(tr *Tracer, cur *int64, scn *lifeScn) {
 	r := &lifeRun{tr: tr, gen: gen, cur: cur, ctxs: map[string]context.Context{}, cancels: map[string]context.CancelFunc{},
 		pending: map[int]string{}, scn: scn}
 	tr.Reset(scn)
+	// reader goroutines of earlier scenarios may still be winding down: let their number settle first, or
+	// one that ends during this scenario would hide this scenario's reader if that one never ends
 	readersBefore := countReaders()
+	for i, stable := 0, 0; i < 60 && stable < 5 && readersBefore > 0; i++ {
+		time.Sleep(10 * time.Millisecond)
+		if n := countReaders(); n == readersBefore {
+			stable++
+		} else {
+			readersBefore, stable = n, 0
+		}
+	}
 	r.mc = newMemConn()
 	info := newInfo()
 	info.ChannelPackageQueueSize = scn.K
@@ -280,6 +296,23 @@ func runLife(tr *Tracer, cur *int64, scn *lifeScn) {
 			for i := 0; i < op.N; i++ {
 				r.mc.Feed(mkPacket(4, 1, 77, 0, encDone(tokDone, 0, 0, 0).Bytes))
 			}
+			// let the reader take what it can take (it stops when the connection's error queue is full)
+			for i, last, stable := 0, -1, 0; i < 100 && stable < 4; i++ {
+				time.Sleep(5 * time.Millisecond)
+				r.mc.mu.Lock()
+				n := len(r.mc.rq)
+				r.mc.mu.Unlock()
+				if n == last {
+					stable++
+				} else {
+					last, stable = n, 0
+				}
+			}
+			if os.Getenv("LIFE_DEBUG") != "" {
+				r.mc.mu.Lock()
+				fmt.Fprintf(os.Stderr, "LIFE_DEBUG stray: fed %d readers %d rq %d\n", op.N, countReaders(), len(r.mc.rq))
+				r.mc.mu.Unlock()
+			}
 			settle()
 		case "until":
 			// NextPackageUntil whose callback fails on the first non-final package (the library then
@@ -351,6 +384,11 @@ func runLife(tr *Tracer, cur *int64, scn *lifeScn) {
 				for i := 0; i < 40 && !ended; i++ {
 					time.Sleep(10 * time.Millisecond)
 					ended = countReaders() <= readersBefore
+				}
+				if os.Getenv("LIFE_DEBUG") != "" {
+					r.mc.mu.Lock()
+					fmt.Fprintf(os.Stderr, "LIFE_DEBUG connclose: readers now %d before %d ended %v rq %d\n", countReaders(), readersBefore, ended, len(r.mc.rq))
+					r.mc.mu.Unlock()
 				}
 				r.mc.mu.Lock()
 				tc := r.mc.nclose > 0
@@ -502,8 +540,10 @@ func lifeMain(args []string) error {
 			scns = append(scns, lifeScn{K: k, Answers: true, Late: true, Ops: []lifeOp{{Op: "connclose"}, {Op: "close"}, {Op: "close"}}})
 			// more stray packets than the connection's error queue holds, nobody consuming: Conn.Close
 			// still ends the reader
-			scns = append(scns, lifeScn{K: k, Answers: true, Ops: []lifeOp{{Op: "stray", N: 10 + 2*k}, {Op: "connclose"}}})
-			scns = append(scns, lifeScn{K: k, Answers: true, Chan: 1, Ops: []lifeOp{{Op: "stray", N: 14}, {Op: "close"}, {Op: "connclose"}}})
+			scns = append(scns, lifeScn{K: k, Answers: true, Ops: []lifeOp{{Op: "stray", N: 40 + 2*k}, {Op: "connclose"}}})
+			scns = append(scns, lifeScn{K: k, Answers: true, Chan: 1, Ops: []lifeOp{{Op: "stray", N: 40}, {Op: "close"}, {Op: "connclose"}}})
+			// ... and with no channel left open: Conn.Close has no logout to perform, so it consumes none of the errors itself
+			scns = append(scns, lifeScn{K: k, Answers: true, Ops: []lifeOp{{Op: "close"}, {Op: "stray", N: 25 + k}, {Op: "connclose"}}})
 			// calls started at the same moment as Close / Conn.Close (no settling in between): whatever the
 			// interleaving, each returns a package, the closed condition or an error - never (nil, nil)
 			for rep := 0; rep < 6; rep++ {
